@@ -211,6 +211,8 @@ pub struct Obs {
     pub body_asked: bool,
     pub body_mode: Option<BodyMode>,
     pub calls: usize,
+    /// sizes of the successful head writes, in order
+    pub head_pieces: Vec<usize>,
     pub overflow_retries: usize,
     pub end_ns: u64,
     /// set when the step budget ran out although the schedule had turned fair
@@ -520,6 +522,7 @@ impl<'a> Run<'a> {
                                 return Step::Done;
                             }
                             self.idle_small = 0;
+                            self.obs.head_pieces.push(k);
                             let bytes = out[..k].to_vec();
                             self.c2s_write(ctx, &bytes);
                             Step::Progress
@@ -854,6 +857,7 @@ impl<'a> Exchange<'a> {
             body_asked: false,
             body_mode: None,
             calls: 0,
+            head_pieces: Vec::new(),
             overflow_retries: 0,
             end_ns: 0,
             budget_exhausted: false,
